@@ -11,12 +11,44 @@ RAWEXPR = "ast::RawExpr"
 
 def call_evaluator(prog):
     """The function that interprets a call: it constructs CannotCallNonFunc."""
+    memo = getattr(prog, "_call_evaluator", 0)
+    if memo != 0:
+        return memo
+    import inline
+    g = None
     for f in prog.hand_fns():
         if f.is_closure or f.from_expansion:
             continue
-        for bb, i, pl, kd, ao, sp in f.aggregates("eval::error::Error", "CannotCallNonFunc"):
-            return f
-    return None
+        if any(True for _ in f.aggregates("eval::error::Error", "CannotCallNonFunc")):
+            g = f
+            break
+    res = g
+
+    def complete(h):
+        return any(True for _ in h.aggregates("eval::error::Error", "CannotCallNonFunc")) \
+            and any("eval::Escape" in (c.dstty or "") for c in h.calls())
+    # the callee test may live in a private helper of the function that runs
+    # the body: climb to the function whose (inlined) body does both
+    cur = g
+    for _ in range(4):
+        if cur is None:
+            break
+        if complete(cur):
+            res = cur
+            break
+        v = inline.view(prog, cur)
+        if v is not cur and complete(v):
+            res = v
+            break
+        callers = {c.fn.root_fn().path for c in prog.callers_of(cur.path)}
+        if len(callers) != 1:
+            break
+        nxt = prog.fns.get(next(iter(callers)))
+        if nxt is None or cur.path not in inline.private_helpers(prog, nxt):
+            break
+        cur = nxt
+    prog._call_evaluator = res
+    return res
 
 
 def expr_evaluators(prog):
@@ -114,10 +146,14 @@ def rule_R14_2(ctx):
         return r
     ctor = with_src[0]
     evs = {g.path for g in expr_evaluators(prog)}
+    import inline
+    ev_helpers = set()
+    for e in expr_evaluators(prog):
+        ev_helpers |= inline.private_helpers(prog, e)
     callers = prog.callers_of(ctor.path)
     for c in callers:
         g = c.fn
-        in_ev = g.root_fn().path in evs
+        in_ev = g.root_fn().path in evs or g.root_fn().path in ev_helpers
         # the source argument is (a clone of) the value that was just evaluated
         src = c.args[1]
         cp = g.canon_op(src)
